@@ -65,6 +65,16 @@ def check(rep, tier, seed):
     compare_cases(rep, "sample-map", cases, nontrivial=lambda c, m: m.startswith("SHAPE=") and "," in m.split()[0],
                   classify=lambda c, m, i: "axes:" + ("panic" if "PANIC" in i or "PANIC" in m else "site-reader"), spec=True)
 
+    # the samples-file parser itself (Map::from_reader) vs the model, on well-formed and odd files
+    files = [b"a\tA\nb\tB\nc\tA\n", b"a\nb\nc\n", b"a\tA\nb\n", b"a\tA\nb\tB", b"a\tA\r\nb\tB\r\n", b"a\tA\n\nb\tB\n", b"", b"\n", b"\n\n",
+             b"a\tA\tx\nb\tB\n", b"a \tA\nb\t B\n", b"a=A\nb=B\n", b"a,b\tA\n", b"\tA\nb\tA\n", b"a\t\nb\t\n", b"a\tA\na\tB\n", b"a\tA\nb\tB\na\tB\n",
+             b"s 0\tpop 1\ns1\tpop 2\ns2\tpop 1\n", b"a\tA\rb\tB\n", b"a\tA\n\r\nb\tA\n", b"x\tA B\ty\n"]
+    for _ in range(40 if tier == "quick" else 400):
+        alphabet = b"ab \t\n\r=,AB"
+        files.append(bytes(rng.choice(alphabet) for _ in range(rng.randrange(0, 24))))
+    compare_cases(rep, "samples-file-parser", ["smapfile %s" % (f.hex() or "-") for f in files], nontrivial=lambda c, m: "," in m,
+                  classify=lambda c, m, i: "axes:samples-file-parser", spec=True)
+
     # binary: invariances
     jobs, groups = [], []
     for k in range(25 if tier == "quick" else 250):
@@ -126,6 +136,28 @@ def check(rep, tier, seed):
             os.remove(os.path.join(WORK, "c09_samples_%d.txt" % k))
         except OSError:
             pass
+    # names and labels with spaces and other unusual characters: the samples file is TAB-separated, the inline list uses
+    # '=' and ','; the two must stay equivalent and labels that share a first word must stay distinct
+    odd = [("pop 1", "pop 2"), ("A B C", "A B"), (" x", "x "), ("p:q", "p;q"), ("naïve", "naive")]
+    for k, (l1, l2) in enumerate(odd if tier == "thorough" else odd[:3]):
+        cols = ["s 0", "s1", "s2", "s3"]
+        recs = [[rng.choice(["0/0", "0/1", "1/1"]) for _ in cols] for _ in range(6)]
+        sm = [("s 0", l1), ("s1", l2), ("s2", l1)]
+        vcf = render_vcf(cols, recs)
+        path = os.path.join(WORK, "c09_odd_%d.txt" % k)
+        open(path, "wb").write(samples_file_bytes(sm))
+        rr = run_cli_many([(["create"] + cli_samples_arg(sm), vcf), (["create", "-S", path], vcf)])
+        exp = run_model(["create 0 a,b,c,d a:L1,b:L2,c:L1 - %s" % model_records(recs)])[0]
+        rep.count("odd-names", "labels %r %r" % (l1, l2), True, n=2)
+        e = exp.split()
+        for which, (rc, so, se) in zip(("inline", "file"), rr):
+            p0 = parse_text_spectrum(so)
+            if rc != 0 or p0 is None or p0[0] != [int(x) for x in e[1].split(",")] or p0[1] != e[2].split(","):
+                rep.fail(kind="property-oracle", cls="axes:odd-names:" + which, case="labels %r / %r, sample name with a space (%s list)" % (l1, l2, which),
+                         argv=["sfs", "create"] + (cli_samples_arg(sm) if which == "inline" else ["-S", path]), stdin=vcf.decode(),
+                         observed={"rc": rc, "stdout": so.decode(errors="replace")[:200], "stderr": se.decode(errors="replace")[-200:]}, expected=exp,
+                         detail="labels / names with unusual characters: the %s list does not give the spectrum of the abstract list" % which)
+        os.remove(path)
     # errors on the binary
     ejobs = [(["create", "-s", "nosuch"], render_vcf(["a", "b"], [["0/1", "0/0"]])),
              (["create", "-s", "a=A,zzz=B"], render_vcf(["a", "b"], [["0/1", "0/0"]])),
